@@ -378,9 +378,8 @@ def pythify(rng, line):
 
 # ------------------------------------------------------------------------------------------------
 # C05 scenarios
-# Retagging a bank as a venue bank (op 23) works for FIXED-price banks only: with any other oracle set-up the real risk engine
-# expects the venue's reserve / spot-market account next to the oracle (WrongNumberOfOracleAccounts); the `risk` fixture does not
-# build those, so the scenario is restricted to collateral banks with a Fixed price.
+# Retagging a bank as a venue bank (op 23): Fixed-price banks take any venue tag (a Fixed oracle needs no further account);
+# Pyth-priced banks become DriftPythPull banks with a spot-market account (Kamino / Solend reserves are not built by the fixture).
 VENUE_COLLATERAL = True
 
 
@@ -489,11 +488,16 @@ def gen_liq_case(rng, dist, reduce_only_asset=False):
         ops.append([22, ab, 2])
         pred.banks[ab]["op_state"] = 2
     tag0 = banks[ab]["tag"]
-    if VENUE_COLLATERAL and not reduce_only_asset and tag0 == 0 and orcs[ab] is None and rng.random() < 0.3:
+    if VENUE_COLLATERAL and not reduce_only_asset and tag0 == 0 and rng.random() < 0.3:
         # the collateral sits in a bank of a third-party venue (Kamino 3, Drift 4, Solend 5; Drift balances are 9-decimal
-        # scaled units whatever the mint's decimals): valuation and the liquidation quantities must use the bank's BALANCE decimals
-        vt = rng.choice([4, 4, 4, 3, 5])
-        ops.append([23, ab, vt])
+        # scaled units whatever the mint's decimals): valuation and the liquidation quantities must use the bank's BALANCE
+        # decimals. A Pyth-priced bank becomes a real DriftPythPull bank: Pyth account + spot market, prices scaled by the
+        # market's cumulative deposit interest
+        vt = rng.choice([4, 4, 4, 3, 5]) if orcs[ab] is None else 4
+        cum = rng.choice([10 ** 10, 10 ** 10, 10 ** 10 + 1, 10500000000, 12345678901, 2 * 10 ** 10, 5 * 10 ** 9]) if orcs[ab] is not None else 0
+        ops.append([23, ab, vt, cum, (now + 10 ** 8) if orcs[ab] is not None else 0])
+        if orcs[ab] is not None:
+            pred.drift[ab] = cum
         banks[ab]["tag"] = vt
         pred.cfg[ab]["tag"] = vt
         dist["venue_collateral"] = dist.get("venue_collateral", 0) + 1
